@@ -3,6 +3,7 @@
 //! `alloc::fmt::format` stubbed (messages are not the subject), a `kani::cover!` witness next to
 //! the last assertion (the driver requires it SATISFIED).
 #![allow(unused)]
+#![recursion_limit = "512"]
 
 pub mod model;
 
